@@ -51,7 +51,7 @@ def gen_single(rng):
 def gen_apset(rng, name, regex_p=0.0):
     ents = [gen_single(rng) for _ in range(rng.randint(1, 3))]
     if rng.random() < regex_p:
-        ents.insert(rng.randint(0, len(ents)), rx_entry(rng.choice([401, 402, 403, 404])))
+        ents.insert(rng.randint(0, len(ents)), rx_entry(rng.choice([401, 402, 403, 404, 405, 406, 407, 408, 409, 410, 411])))
         if rng.random() < 0.3: ents = [e for e in ents if e[0] == 1]
     return [2, name, ents]
 
@@ -205,7 +205,7 @@ def chain_cases(rng, n):
     """several policies and statements: dispositions, accumulation of actions, conditions that see earlier actions"""
     out = []
     for _ in range(n):
-        sets = [gen_pset(rng, 1), gen_nset(rng, 1), gen_apset(rng, 1), gen_cset(rng, 1), gen_eset(rng, 1), gen_lset(rng, 1)]
+        sets = [gen_pset(rng, 1), gen_nset(rng, 1), gen_apset(rng, 1, 0.4), gen_cset(rng, 1), gen_eset(rng, 1), gen_lset(rng, 1)]
         nst = rng.randint(2, 5)
         stmts = []
         for i in range(1, nst + 1):
@@ -376,17 +376,58 @@ def crud_directed(rng):
                                 [1, 0, [0, 1, []]], [1, 0, [0, 2, []]], [1, 1, [0, 1, []]]]))
     return out
 
+VRPS = [[ip4(10, 0, 0, 0), 8, 8, 65002], [ip4(10, 1, 0, 0), 16, 24, 65001], [ip4(10, 1, 2, 0), 24, 24, 65001], [ip4(10, 1, 2, 0), 24, 32, 65003],
+        [ip4(10, 2, 0, 0), 16, 16, 0], [ip4(192, 168, 0, 0), 16, 24, 65002], [ip6(V6BASE), 32, 48, 65001], [ip6(V6BASE | (1 << 80)), 48, 64, 65002]]
+
+def with_rpki(rng, ops, vrps=None):
+    """install an RPKI table first and probe validate for every (prefix, origin AS) the evaluations can ask about"""
+    vrps = vrps if vrps is not None else rng.sample(VRPS, rng.randint(1, len(VRPS)))
+    nets, asns = [], {0}
+    for op in ops:
+        if op[0] == 9:
+            if op[3] not in nets: nets.append(op[3])
+            asns.add(op[2][4])
+            for a in op[4]:
+                d = attr_in(a)
+                if d is not None and d['code'] == 2 and d['k'] != 0:
+                    for _, l in iter_segs(d['data']): asns.update(l)
+        if op[0] == 3 and op[4][4]: asns.add(op[4][4][0][0])
+    probes = [[12, n, a] for n in nets for a in sorted(asns)]
+    return [[11, vrps]] + ops + probes
+
+def rpki_cases(rng, n):
+    out = []
+    for _ in range(n):
+        stmts = [(1, [[8, rng.randrange(3)]] + ([gen_valcond(rng)] if rng.random() < 0.3 else []), rng.choice([[], [1], [2]]),
+                  gen_actions(rng, 0.25, allow_nh=False)),
+                 (2, [[8, rng.randrange(3)]], [rng.choice([1, 2])], NOACT())]
+        ops = setup([], stmts, [(1, [1, 2])], [(1, rng.choice([1, 2]), [1]), (0, rng.choice([1, 2]), [1])])
+        routes = []
+        for _ in range(rng.randint(4, 8)):
+            x = rng.random()
+            attrs = [] if x < 0.15 else [aspath_attr(gen_path(rng))] + ([[0, 4, 5]] if x > 0.8 else [])
+            if x > 0.93: attrs = [[1, 2, rng.choice([[2, 1, 0, 0], [2], [2, 2, 0, 0, 253, 233], [1, 1, 0, 0, 253, 233, 2, 1, 0, 0, 253, 234, 2, 9]])]]
+            routes.append(ev(rng.choice(R4[:8] + R6[:3]), attrs, d=rng.randrange(2), src=rng.choice([SRC_E, SRC_I, SRC_L])))
+        body = ops + routes
+        # a third of the cases evaluate once before the table is installed (rpki = None)
+        if rng.random() < 0.3:
+            out.append(mk('rpki', [routes[0]] + with_rpki(rng, body), profile=rng.choice(['debug', 'release'])))
+        else:
+            out.append(mk('rpki', with_rpki(rng, body), profile=rng.choice(['debug', 'debug', 'release'])))
+    return out
+
 def gen_cases(rng, tier):
     q = tier == 'quick'
     cases = []
     cases += prefix_cases(rng, 150 if q else 1500)
     cases += aspath_cases(rng, 150 if q else 1500)
-    cases += aspath_cases(rng, 12 if q else 100, regex_p=1.0, cls='aspath_regex')
+    cases += aspath_cases(rng, 80 if q else 800, regex_p=1.0, cls='aspath_regex')
     cases += community_cases(rng, 120 if q else 1200)
     cases += chain_cases(rng, 250 if q else 2400)
     cases += length_cases(rng, 6 if q else 60)
     cases += api_cases(rng, 30 if q else 400)
     cases += med_cases(rng)
+    cases += rpki_cases(rng, 60 if q else 600)
     cases += crud_directed(rng)
     if not q:
         for _ in range(20): cases += crud_directed(rng)[:6]
